@@ -4,14 +4,26 @@
 
 package binary
 
+// Whether an operator is supported is decided when the operator is built (statement of C08: "decided
+// when the query is created"): the operation is looked up in the operation tables at construction,
+// construction fails exactly when the lookup fails, and a built operator carries its operation.
+//@ func newOperation
+//@   assigns nothing
+//@   ensures[C08] err-is-unsupported: result1 != nil ==> result1.isNS && isnil(result0)
+//@   ensures ok-nonnil: result1 == nil ==> !isnil(result0)
 //@ func NewVectorOperator
 //@   requires matching != nil
 //@   ensures[C08] err-is-unsupported: result1 != nil ==> (result1.isNS || result1.isNI) && result0 == nil
 //@   ensures ok-nonnil: result1 == nil ==> result0 != nil
+//@   ensures[C08] operator-support-decided-at-construction: ncalls("binary.newOperation") == 1 && (result1 != nil) == (callres("binary.newOperation", 1, 1) != nil)
+//@   ensures[C08] built-operator-carries-its-operation: result1 == nil ==> istype(result0, *binary.vectorOperator) && !isnil(cast(result0, *binary.vectorOperator).operation)
+//@   at binary.newOperation assert[C08] operation-of-the-node: $expr == operation && $vectorBinOp
 
 //@ func NewScalar
 //@   ensures[C08] err-is-unsupported: result1 != nil ==> (result1.isNS || result1.isNI) && result0 == nil
 //@   ensures ok-nonnil: result1 == nil ==> result0 != nil
+//@   ensures[C08] operator-support-decided-at-construction: ncalls("binary.newOperation") == 1 && (result1 != nil) == (callres("binary.newOperation", 1, 1) != nil)
+//@   at binary.newOperation assert[C08] operation-of-the-node: $expr == op && $vectorBinOp == (scalarSide != binary.ScalarSideBoth)
 
 // ---- table.go ----------------------------------------------------------------------------------
 // Output indices map an input series id to the output series it feeds. nIn: number of input series
